@@ -1,5 +1,6 @@
 """C06 — only the documented error families ever escape; every call terminates."""
 import random
+import re
 import signal
 
 import jsonpath
@@ -94,6 +95,26 @@ def gen(rng, tier):
             for _ in range(rng.choice([0, 1, 1, 2])):
                 text = mutate(rng, text)
         yield {"kind": "compile", "text": text, "doc": rng.choice(DOCS), "ctx": Q.CTX}
+    # (1b) oversized numbers: more digits than the interpreter's int() converts (4300 by default), huge repetition counts
+    big = "1" * 4301
+    for text in ["$[%s]" % big, "$[-%s]" % big, "$[%s:]" % big, "$[:%s]" % big, "$[::%s]" % big, "$[1:2:-%s]" % big, "$[?@.a == %s]" % big,
+                 "$[?@.a == -%s]" % big, "$[?@.a == %se1]" % big, "$[?@.a == %s.5]" % big, "$[?@.a == 1.%s]" % big, "$[?@.a == 1e%s]" % big,
+                 "$[?@.a == 1e-%s]" % big, "$[?@ in [%s]]" % big, "$[?count(@[%s]) == 1]" % big, "$.a[?@[%s]]" % big, "$..[%s]" % big,
+                 "$[?@.a =~ /a{99999999999}/]", "$[?match(@.a, 'a{99999999999}')]", "$[?search(@.a, 'a{99999999999}')]",
+                 "$[?match(@.a, @.p)]", "$[?search(@.a, @.p)]", "$[?@.a =~ /a{2,99999999999}/]", "$[?@.a =~ /(a{65536}){65536}/]"]:
+        if not thorough and big in text and text not in ("$[%s]" % big, "$[:%s]" % big, "$[?@.a == %s]" % big, "$[?@.a == 1e%s]" % big):
+            continue
+        yield {"kind": "compile", "text": text, "doc": [{"a": "aa", "p": "a{99999999999}"}, {"a": 1}], "ctx": Q.CTX}
+    for tok in ([big, "-" + big, "#" + big, "0" + big] if thorough else [big]):
+        for doc in ({"a": [1, 2], big: 3}, [1, 2]):
+            yield {"kind": "ptr", "mode": True, "text": "/" + tok, "doc": doc, "default": None, "has_default": False}
+            yield {"kind": "ptr", "mode": False, "text": "/a/" + tok, "doc": doc, "default": 5, "has_default": True}
+        yield {"kind": "patch", "mode": True, "ops": [["add", "/a/" + tok, 1]], "doc": {"a": [1, 2]}}
+        yield {"kind": "patch", "mode": True, "ops": [["move", "/a/0", "/a/" + tok]], "doc": {"a": [1, 2]}}
+        yield {"kind": "badpatch", "ops": [{"op": "remove", "path": "/a/" + tok}], "doc": {"a": [1, 2]}}
+    # (printing a 4301-digit number in the extracted model takes seconds: the ones that need it run on the thorough tier)
+    for rel in ([big, big + "/a", "0+" + big, "0-" + big, "0-" + big + "#"] if thorough else []) + ["1/" + big, "0/a/" + big]:
+        yield {"kind": "rel", "mode": True, "rel": rel, "base": parts_typed(["a", "1"])}
     # (2) pointers
     for i in range(n // 3):
         doc = rng.choice([d for d in SMALL_DOCS if not isinstance(d, str)])
@@ -230,9 +251,9 @@ def _sx_sel(s):
     if k == "name":
         return ["name", SX.sx2s(s[1])]
     if k == "idx":
-        return ["idx", int(s[1])]
+        return ["idx", SX.big_int(s[1])]
     if k == "slice":
-        return ["slice"] + [None if v == "none" else int(v) for v in s[1:]]
+        return ["slice"] + [None if v == "none" else SX.big_int(v) for v in s[1:]]
     if k == "filter":
         return ["filter", _sx_expr(s[1])]
     raise ValueError(s)
@@ -266,13 +287,19 @@ def decode(sx, case):
         else:
             model["compile"] = ["err", comp[1]]
         spec = {"compile": "ok-or-family", "tokens": "ok-or-family", "eval": "ok-or-family", "str": "ok"}
-        return {"model": model, "spec": spec, "in_domain": True, "model_unsupported": unsupported or comp[1] == "fuel" if comp[0] == "err" else False}
+        if comp[0] == "ok" and re.search(r"[0-9]{4301}", case["text"]):
+            # the model's integers are unbounded; CPython converts at most sys.get_int_max_str_digits() (4300) digits, so an
+            # integer LITERAL that long is rejected by the implementation (a syntax error): outside the model
+            unsupported = True
+        return {"model": model, "spec": spec, "in_domain": True, "model_unsupported": unsupported or (comp[0] == "err" and comp[1] == "fuel")}
     if k == "ptr":
         d = C04.decode(sx, case)
         return {"model": {"ptr": d["model"]}, "spec": {"ptr": "ok-or-family"}, "in_domain": True, "model_unsupported": d.get("skip", False)}
     if k == "rel":
         d = C16.decode(sx, case)
-        return {"model": {"rel": d["model"]}, "spec": {"rel": "ok-or-family"}, "in_domain": True, "model_unsupported": d.get("skip", False)}
+        # (an origin / offset longer than the interpreter's int() limit is a syntax error there; the model's integers are unbounded)
+        return {"model": {"rel": d["model"]}, "spec": {"rel": "ok-or-family"}, "in_domain": True,
+                "model_unsupported": d.get("skip", False) or bool(re.search(r"[0-9]{4301}", case["rel"]))}
     if k == "patch":
         d = C05.decode(sx, case)
         return {"model": {"patch": d["model"]}, "spec": {"patch": "ok-or-family"}, "in_domain": True, "model_unsupported": d.get("skip", False)}
